@@ -20,7 +20,7 @@ def script(rnd, tround):
     return pre + 'W' * (tround - len(pre)) + rnd.choice('TTW') + rnd.choice(['', 'C'])
 
 def gen(tier, rnd):
-    L = ['life 600 1 S', 'life 600 1 s', 'life 600 1 RS,RC', 'life 600 2 S,s,RC', 'life 600 1 Z', 'life 600 1 RZ', 'life 600 1 BX', 'life 600 1 BC,RC', 'life 600 2 RBX,BWC,RC', 'life 600 1 RC,RRH,PX,PC,WWT,RWT,C,X,H,PH,RX', 'life 600 1 A,RA,A,RC,A', 'life 600 1 A', 'life 600 1 T', 'life 600 1 PT', 'life 600 1 RT', 'life 600 2 RRC,RC', 'life 600 1 ' + ','.join(['RC'] * 40)]
+    L = ['life 600 1 E', 'life 600 1 E,E', 'life 600 1 S', 'life 600 1 s', 'life 600 1 RS,RC', 'life 600 2 S,s,RC', 'life 600 1 Z', 'life 600 1 RZ', 'life 600 1 BX', 'life 600 1 BC,RC', 'life 600 2 RBX,BWC,RC', 'life 600 1 RC,RRH,PX,PC,WWT,RWT,C,X,H,PH,RX', 'life 600 1 A,RA,A,RC,A', 'life 600 1 A', 'life 600 1 T', 'life 600 1 PT', 'life 600 1 RT', 'life 600 2 RRC,RC', 'life 600 1 ' + ','.join(['RC'] * 40)]
     n = 10 if tier == 'quick' else 150
     for _ in range(n):
         k = rnd.choice([1, 2, 3, 4, 6] if tier == 'quick' else [1, 2, 3, 4, 6, 9, 12])
@@ -55,7 +55,7 @@ def classify(ln, out):
     w = ln.split()
     return (w[2], tuple(sorted(set(w[3].split(',')))), out.split(' fds=')[-1])
 
-RULE = ('1..6 (thorough 12) concurrent connections against a live endpoint with 1..3 workers, each following a script over {full request, partial request, orderly close, half-close (shutdown WR), reset (SO_LINGER 0), abort in the middle of a request while the worker is busy (data and FIN in one readiness event), leaving (close/reset/end) while an 8 MB answer is blocked in the write queue, leaving by reset or close while the handler is still busy and then flushes a streamed answer from inside onInput (the writes fail with ECONNRESET/EPIPE), staying silent with a blocked answer until the idle time-out has fired several times and then reading everything (answer, 408, close), '
+RULE = ('1..6 (thorough 12) concurrent connections against a live endpoint with 1..3 workers, each following a script over {full request, partial request, orderly close, half-close (shutdown WR), reset (SO_LINGER 0), abort in the middle of a request while the worker is busy (data and FIN in one readiness event), leaving (close/reset/end) while an 8 MB answer is blocked in the write queue, leaving by reset or close while the handler is still busy and then flushes a streamed answer from inside onInput (the writes fail with ECONNRESET/EPIPE), staying silent and closing exactly when the idle time-out is noticed (timer tick and FIN in one epoll batch after the worker was busy), staying silent with a blocked answer until the idle time-out has fired several times and then reading everything (answer, 408, close), '
         'silence until the 600 ms idle time-out, left open}; 40 connections served one after the other; the handler\'s onConnection/onInput/onDisconnection calls per connection (keyed by the client port), '
         'the number of entries in /proc/self/fd against the idle baseline, the sizes of the workers\' own tables (Transport::peers, toWrite, timers) once every client is gone and the ability to serve as many new connections as there were (they take over the released descriptor numbers; each must get exactly its own answer) are compared with the lifecycle model and checked by a direct oracle. non-trivial = distinct (workers, script set, outcome)')
 ASSUME = ['consecutive onInput calls are collapsed (how many reads deliver a request is up to TCP)', 'idle rounds last time-out + 1300 ms: every connection still open then is expired by the server',
